@@ -59,12 +59,20 @@ from hypothesis import strategies as st
 
 __all__ = [
     "CoupledSystem",
+    "NonFiniteInput",
     "HarnessDiscipline",
     "build_disciplines",
     "coupled_systems",
     "input_values",
     "describe_graph",
 ]
+
+class NonFiniteInput(ValueError):
+    """Raised by a HarnessDiscipline (``reject_non_finite=True``) executed on NaN / infinite inputs.
+
+    Lets a check stop an MDA that keeps iterating on NaN for its whole iteration budget.
+    """
+
 
 X_SCALE = 0.5  # real design-input block = integer block * X_SCALE; constants likewise
 
@@ -358,8 +366,10 @@ def _harness_class(grammar_type: str):
 
         default_grammar_type = Discipline.GrammarType(grammar_type)
 
-        def __init__(self, model: CoupledSystem, index: int, defaults: dict, jac_format: str = "dense", keep_log: bool = False):
+        def __init__(self, model: CoupledSystem, index: int, defaults: dict, jac_format: str = "dense", keep_log: bool = False,
+                     reject_non_finite: bool = False):
             super().__init__(name=model.disc_names[index])
+            self.reject_non_finite = reject_non_finite
             self.model = model
             self.index = index
             self.jac_format = jac_format
@@ -374,6 +384,10 @@ def _harness_class(grammar_type: str):
 
         def _run(self, input_data):
             self.n_run += 1
+            if self.reject_non_finite:
+                for k in self.model.inputs_of[self.index]:
+                    if not np.all(np.isfinite(input_data[k])):
+                        raise NonFiniteInput(f"discipline {self.name} executed with {k} = {input_data[k]!r}")
             if self.run_log is not None:
                 self.run_log.append({k: np.array(v, dtype=float) for k, v in input_data.items() if k in self.model.inputs_of[self.index]})
             return self.model.run(self.index, input_data)
@@ -390,19 +404,20 @@ def _harness_class(grammar_type: str):
     return HarnessDiscipline
 
 
-def HarnessDiscipline(model, index, defaults, jac_format="dense", grammar_type="SimpleGrammar", keep_log=False):  # noqa: N802
+def HarnessDiscipline(model, index, defaults, jac_format="dense", grammar_type="SimpleGrammar", keep_log=False, reject_non_finite=False):  # noqa: N802
     """Create the gemseo discipline of ``model.payload['discs'][index]``."""
-    return _harness_class(grammar_type)(model, index, defaults, jac_format, keep_log)
+    return _harness_class(grammar_type)(model, index, defaults, jac_format, keep_log, reject_non_finite)
 
 
-def build_disciplines(model: CoupledSystem, defaults: dict, grammar_type: str = "SimpleGrammar", keep_log: bool = False) -> list:
+def build_disciplines(model: CoupledSystem, defaults: dict, grammar_type: str = "SimpleGrammar", keep_log: bool = False,
+                      reject_non_finite: bool = False) -> list:
     """One gemseo discipline per payload discipline, in payload (list) order.
 
     ``defaults`` gives the default value of every variable (design inputs and coupling start
     values): ``{name: list of floats}``.
     """
     return [
-        HarnessDiscipline(model, i, defaults, d.get("jac", "dense"), grammar_type, keep_log)
+        HarnessDiscipline(model, i, defaults, d.get("jac", "dense"), grammar_type, keep_log, reject_non_finite)
         for i, d in enumerate(model.payload["discs"])
     ]
 
